@@ -197,4 +197,51 @@ theorem c02_first_entry_gone_counterexample :
 (`w' = 12, i = 1`): `[98 s, 100 s)` has ended, `[100 s, 102 s)` has not. -/
 example : edgeIdx exRep (100300 / 8000) ((100300 % 8000) * 90000 / 1000 % 720000) = some (12, 1) := by decide
 
+/-! ## Implicit timelines: `SegmentTemplate@duration` + `startNumber` -/
+
+/-- every segment of the table has the duration `d` -/
+def Uniform (r : Rep) (d : Nat) : Prop := ∀ i, i < r.N → (r.seg i).stop = (r.seg i).start + d
+
+theorem uniform_start (r : Rep) (d : Nat) (h : Contig r) (hu : Uniform r d) (h0 : (r.seg 0).start = 0) :
+    ∀ i, i < r.N → (r.seg i).start = i * d
+  | 0, _ => by simp [h0]
+  | i + 1, hi => by
+    have := h.2.2 i hi
+    rw [← this, hu i (by omega), uniform_start r d h hu h0 i (by omega), Nat.add_mul, Nat.one_mul]
+
+/-- **A duration template describes the served segments exactly** when all segments have the same duration `d`: the
+`k`-th segment of the looped stream (number `startNumber + k` in the MPD) starts at `k·d` and ends at `(k+1)·d` on the
+media timeline — the times a DASH client derives from `@duration`, `@startNumber` and the number — for every `k`, across
+every loop wrap. -/
+theorem c02_template_uniform (a : Asset) (r : Rep) (d : Nat) (h : Contig r) (hc : Closes a r) (hu : Uniform r d) (k : Nat) :
+    S a r k = k * d ∧ E a r k = (k + 1) * d := by
+  have hN := h.1
+  have hstart := uniform_start r d h hu hc.2
+  have hdur : r.dur = r.N * d := by
+    have hne : r.segs.isEmpty = false := by
+      unfold Rep.N at hN
+      cases hs : r.segs with
+      | nil => simp [hs] at hN
+      | cons _ _ => simp
+    unfold Rep.dur
+    simp only [hne, Bool.false_eq_true, if_false]
+    rw [hu (r.N - 1) (by omega), hstart (r.N - 1) (by omega), hc.2]
+    have : (r.N - 1) * d + d = r.N * d := by
+      have : r.N = r.N - 1 + 1 := by omega
+      conv => rhs; rw [this, Nat.add_mul, Nat.one_mul]
+    omega
+  have hm : k % r.N < r.N := Nat.mod_lt _ hN
+  have hsplit : k / r.N * (r.N * d) + k % r.N * d = k * d := by
+    have := Nat.div_add_mod k r.N
+    calc k / r.N * (r.N * d) + k % r.N * d = (r.N * (k / r.N) + k % r.N) * d := by
+          rw [Nat.add_mul, Nat.mul_comm (k / r.N) (r.N * d), Nat.mul_assoc, Nat.mul_comm d (k / r.N), ← Nat.mul_assoc]
+      _ = k * d := by rw [this]
+  unfold S E
+  rw [hc.1, hdur, hu (k % r.N) hm, hstart (k % r.N) hm]
+  refine ⟨hsplit, ?_⟩
+  rw [← Nat.add_assoc, hsplit, Nat.add_mul, Nat.one_mul]
+
+/-- non-vacuity: `testpic_2s` video (4 segments of 180000 ticks, loop 8 s): segment 17 spans [17, 18)·180000 -/
+example : S exAsset exRep 17 = 17 * 180000 ∧ E exAsset exRep 17 = 18 * 180000 := by decide
+
 end Core
